@@ -458,8 +458,9 @@ func runC06(c c06Case) *Violation {
 
 func TestC06(t *testing.T) {
 	Ev.Level = "fault_enumeration"
-	Ev.Rule = "case = generated sequential ingest history (1-4 row batches, some with an unmarshalable row nested inside; explicit and limit-triggered flushes; partitions) over MemDataStore with/without Abort or a FileSystemDataStore, with MemoryMetaStore (atomic Update) or the FileSystemDataStore itself as MetaStore (publish at Close; error => absent is judged there unless an Abort/TombstoneFile call was itself made to fail), all behind the harness's tracing wrapper. The fault-free run numbers every CreateFile/Write/Close/Abort/Update/TombstoneFile call; the history is then re-run ONCE PER POSITION with a failure there in three shapes (fail before the call; short write + error; Close that publishes and then reports failure), plus generated position pairs. Oracle after every run: nil ack => each row visible exactly once on this engine, on a fresh engine, and after a Merge; error ack => none of its rows visible in any of the three; never a row that was not ingested; unmarshalable batch => error ack and neighbours unaffected. badbatch phase (no injected faults): partitioned engines, 2-6 row batches over several partitions, limits mostly out of reach so earlier batches are still buffered, half of the later batches carry an unmarshalable row at a generated position; same oracle. evaluations = executions of a history under one fault plan. Non-trivial: the fault fired and the same run has >=1 nil-acked and >=1 error-acked batch; distinct by hash(history, config, store, fired faults)."
+	Ev.Rule = "case = generated sequential ingest history (1-4 row batches, some with an unmarshalable row nested inside; explicit and limit-triggered flushes; partitions) over MemDataStore with/without Abort or a FileSystemDataStore, with MemoryMetaStore (atomic Update) or the FileSystemDataStore itself as MetaStore (publish at Close; error => absent is judged there unless an Abort/TombstoneFile call was itself made to fail), all behind the harness's tracing wrapper. The fault-free run numbers every CreateFile/Write/Close/Abort/Update/TombstoneFile call; the history is then re-run ONCE PER POSITION with a failure there in three shapes (fail before the call; short write + error; Close that publishes and then reports failure), plus generated position pairs. Oracle after every run: nil ack => each row visible exactly once on this engine, on a fresh engine, and after a Merge; error ack => none of its rows visible in any of the three; never a row that was not ingested; unmarshalable batch => error ack and neighbours unaffected. badbatch phase (no injected faults): partitioned engines, 2-6 row batches over several partitions, limits mostly out of reach so earlier batches are still buffered, half of the later batches carry an unmarshalable row at a generated position; same oracle. deadline phase: filesystem store as both stores, a ctx-honouring gate inside one store call of a flush (Update / Close / Write / CreateFile / TombstoneFile) while a Stop deadline of 60-120 ms expires; afterwards a fresh engine over the directory: error-acked rows absent, nil-acked rows present exactly once. evaluations = executions of a history under one fault plan. Non-trivial: the fault fired and the same run has >=1 nil-acked and >=1 error-acked batch; distinct by hash(history, config, store, fired faults)."
 	Ev.Assumptions = []string{"MetaStore.Update is atomic (MemoryMetaStore), as the property states", "faults are one-shot: the store is healthy again after the injected failure"}
 	runChecks(t, "faults", 25, 600, genC06(), runC06)
 	runChecks(t, "badbatch", 400, 12000, genC06Bad(), runC06Bad)
+	runChecks(t, "deadline", 60, 2000, genC06Deadline(), runC06Deadline)
 }
